@@ -23,7 +23,8 @@ func init() {
 }
 
 func runC01(c *Ctx) {
-	c01R1(c)
+	discharged := scopeAgreement(c, "R2")
+	c01R1(c, discharged)
 }
 
 // exportedLangEntryPoints: exported package-level functions and exported methods of exported
@@ -51,7 +52,7 @@ func exportedLangEntryPoints(p *Program) []*ssa.Function {
 }
 
 // R1 api-error-kinds
-func c01R1(c *Ctx) {
+func c01R1(c *Ctx, discharged Kinds) {
 	p := c.P
 	ek := EKOf(p)
 	c.Analysed["errkind_fixpoint_rounds"] = ek.rounds
@@ -66,6 +67,8 @@ func c01R1(c *Ctx) {
 	for _, f := range exportedLangEntryPoints(p) {
 		idx := errResultIndex(f.Signature)
 		k := ek.Sum(f, idx)
+		removed := k & discharged
+		k &^= discharged // scoped sentinels whose parser/evaluator agreement R2 established
 		name := shortName(f)
 		// methods like Error() string have no error result and are not listed; the low-level
 		// Value accessors return raw errors by design (wrapped by their callers)
@@ -81,7 +84,11 @@ func c01R1(c *Ctx) {
 			bad = k & (ek.AllSentinels() | KUnknown)
 		}
 		if bad == 0 {
-			c.ok("R1", "entry "+name, p.Pos(f.Pos()), "kinds "+ek.kindNames(k))
+			d := "kinds " + ek.kindNames(k)
+			if removed != 0 {
+				d += "; " + ek.kindNames(removed) + " are inferred flow-insensitively but cannot arise at this entry point: discharged by the scope agreement R2"
+			}
+			c.ok("R1", "entry "+name, p.Pos(f.Pos()), d)
 			continue
 		}
 		var why []string
